@@ -202,6 +202,7 @@ def lemma_mover(qual):
             for ob in ex.obligations:
                 vcs.append(("step%d.%s" % (si, ob.name.split(".")[-1]), list(ob.pc), ob.goal))
         return vcs
+    run.target = qual
     return run
 
 
